@@ -1068,3 +1068,90 @@ Proof.
           try (right; vm_compute; discriminate); try (left; reflexivity)|]).
   destruct i; discriminate.
 Qed.
+
+(* ------------------------------------------------------------------------- *)
+(* 11. several outgoing dials of one host: the verifier of a dial is private   *)
+
+Definition restarts (id : nat) (ev : hev) : Prop :=
+  match ev with HStart i _ _ => i = id | HCert _ _ => False end.
+
+Lemma host_run_keeps_dial fx s id evs : forall st,
+  (forall ev, In ev evs -> ~ restarts id ev) ->
+  dial_lookup id (h_dials (host_run false fx s st evs)) = dial_lookup id (h_dials st).
+Proof.
+  induction evs as [|ev evs IH]; intros st Hno; [reflexivity|].
+  simpl. rewrite IH by (intros ev' Hin; apply Hno; right; exact Hin).
+  destruct ev as [i e n|i h]; simpl; [|reflexivity].
+  destruct (i =? id) eqn:E; [|reflexivity].
+  apply Nat.eqb_eq in E. exfalso. apply (Hno (HStart i e n)); [left; reflexivity|exact E].
+Qed.
+
+(* whatever other dials the host starts and whatever certificates arrive on them
+   in between, the certificate arriving on dial [id] is judged with the expected
+   key and the nonce of dial [id] *)
+Theorem dial_verifier_private fx s st id e n evs h :
+  dial_lookup id (h_dials st) = Some (e, n) ->
+  (forall ev, In ev evs -> ~ restarts id ev) ->
+  snd (host_step false fx s (host_run false fx s st evs) (HCert id h)) =
+  Some (tls_handshake fx s 0 n (Some e) h).
+Proof.
+  intros Hl Hno. simpl. unfold host_verifier. rewrite (host_run_keeps_dial fx s id evs st Hno), Hl.
+  reflexivity.
+Qed.
+
+(* hence (F09 repaired): a dial accepts only a certificate proving ITS intended
+   key over ITS nonce, whatever the other dials of the same host do *)
+Theorem dial_accepts_only_own_proof fx s st id e n evs h :
+  fix_f09 fx = true ->
+  dial_lookup id (h_dials st) = Some (e, n) ->
+  (forall ev, In ev evs -> ~ restarts id ev) ->
+  snd (host_step false fx s (host_run false fx s st evs) (HCert id h)) = Some Accept ->
+  exists c tk, h = Hello [RawOne c] (c_tlskey c) /\ key_of_cn s (c_cn c) = Some e /\
+               c_sig c = Some (SigBy e n (c_cn c) tk).
+Proof.
+  intros Hf Hl Hno Ha. rewrite (dial_verifier_private fx s st id e n evs h Hl Hno) in Ha.
+  injection Ha as Ha. apply tls_handshake_accept in Ha as (c & hk & -> & Htk & Hv).
+  apply dial_reaches_expected_fixed in Hv as (c' & tk & Heq & Hk & Hs); [|assumption].
+  injection Heq as <-. exists c, tk. subst hk. auto.
+Qed.
+
+Example dial_accepts_only_own_proof_nonvacuous :
+  snd (host_step false (mkfixes true false true true) Ed25519
+         (host_run false (mkfixes true false true true) Ed25519 host0
+                   [HStart 0 1 0; HStart 1 2 4; HCert 1 (Hello [] 0)])
+         (HCert 0 (Hello [RawOne (mkcert (pub_to_cn 1) [URI true true (pub_to_cn 1)]
+                                        (Some (SigBy 1 0 (pub_to_cn 1) None)) 0 SgSelf (-300) 7200 true false)] 0)))
+  = Some Accept.
+Proof. reflexivity. Qed.
+
+(* the forced scenario: the concurrent dial is without influence on the observed one *)
+Theorem conc_dial_private fx s e other h msgs :
+  conc_dial false fx s e other h msgs = link fx LTls (RDial e) s h IdMatch msgs.
+Proof.
+  unfold conc_dial, link. simpl. unfold host_verifier. simpl.
+  destruct (tls_handshake fx s 0 0 (Some e) h); reflexivity.
+Qed.
+
+Theorem conc_other_up_private fx s e other tk : conc_other_up false fx s e other tk = true.
+Proof.
+  unfold conc_other_up. simpl. unfold host_verifier. simpl.
+  unfold x509_ok, expected_ok, sig_ok, opt_tkey_ok, cname_eqb, pub_to_cn, conc_nonce. simpl.
+  rewrite !Nat.eqb_refl. simpl.
+  destruct (fix_f09 fx), (fix_bind fx); simpl; rewrite ?Nat.eqb_refl; reflexivity.
+Qed.
+
+(* NOT /repo: if the dials of a host shared one verifier slot, the peer on the
+   first link could answer with a proof made for the second dial (another key,
+   another nonce) and be accepted as the first dial's target: clauses 2 (not this
+   handshake's nonce), 3 (not the dialled key), 4 (stamped key not owned) *)
+Theorem shared_verifier_refuted :
+  let fx := mkfixes true false true true in
+  let c := mkcert (pub_to_cn 2) [URI true true (pub_to_cn 2)] (Some (SigBy 2 conc_nonce (pub_to_cn 2) None))
+                  0 SgSelf (-300) 7200 true false in
+  let h := Hello [RawOne c] 0 in
+  conc_dial false fx Ed25519 1 2 h 2 = mkout false 0 [] false /\
+  (let o := conc_dial true fx Ed25519 1 2 h 2 in
+   o = mkout true 2 [1; 1] false /\
+   prop_check LTls (RDial 1) Ed25519 [2; 3] h IdMatch (out_hs o) (out_disp o) (out_stamp o) (out_crash o)
+   = [2; 3; 4]).
+Proof. vm_compute. auto. Qed.
